@@ -820,7 +820,8 @@ class Hist(object):
     def fits_snl(self, end, name):
         """adapter: the request for `name` fits one SNL PDU of the link (nfcpy never sends a longer one)"""
         try:
-            return 3 + len(enc(name)) <= int(self.llc[end].cfg["send-miu"])
+            # (an SDREQ parameter carries a transaction id and at most 254 octets of name, whatever the MIU is)
+            return len(enc(name)) <= 254 and 3 + len(enc(name)) <= int(self.llc[end].cfg["send-miu"])
         except Exception:      # noqa
             return False
 
